@@ -244,7 +244,15 @@ class Evaluator:
                     self._eval(v.value, env)
             return "<fstring>"
         if isinstance(e, (ast.Tuple, ast.List)):
-            vals = [self._eval(x, env) for x in e.elts]
+            vals = []
+            for x in e.elts:
+                if isinstance(x, ast.Starred):
+                    inner = self._eval(x.value, env)
+                    if not isinstance(inner, (list, tuple)):
+                        raise Licence(f"{self.f.loc(e)}: `*{ast.unparse(x.value)}` of an abstract value")
+                    vals.extend(inner)
+                else:
+                    vals.append(self._eval(x, env))
             return tuple(vals) if isinstance(e, ast.Tuple) else vals
         if isinstance(e, ast.BoolOp):
             if isinstance(e.op, ast.And):
@@ -439,6 +447,9 @@ class Evaluator:
         raise Licence(f"{self.f.loc(node)}: identity test {src(node)} on {a!r}, {b!r}")
 
     def _call(self, e: ast.Call, env: dict[str, Any]) -> Any:
+        d0 = dotted(e.func)
+        if d0 is not None and d0.split(".")[-1] == "cast" and len(e.args) == 2 and not e.keywords:
+            return self._eval(e.args[1], env)  # the type argument is not a value
         args = [self._eval(a, env) for a in e.args]
         kwargs = {k.arg: self._eval(k.value, env) for k in e.keywords if k.arg}
         if self.call_hook is not None:
